@@ -29,7 +29,7 @@ struct aws_logger *aws_logger_get(void) { return NULL; }
 
 /* witnesses: g_on is itself arbitrary (with g_on the contracts require g_k to point at an existing byte, which an
  * empty encoder does not have) */
-#define GHOSTS() do { C10_RESET(); g_on = (nondet_int() != 0); g_k = nondet_size_t(); g_old = nondet_u8(); g_j = nondet_size_t(); g_src = nondet_u8(); } while (0)
+#define GHOSTS() do { C10_RESET(); g_on = (nondet_int() != 0); g_k = nondet_size_t(); g_old = nondet_u8(); g_j = nondet_size_t(); g_src = nondet_u8(); R_ENC_ON(); } while (0)
 
 /* ------------------------------------------------------------------ libcbor leaf encoders under contract */
 #define H_LEAF(name, T) void h_leaf_##name(void) { T v; unsigned char *b; size_t n; uint8_t off; GHOSTS(); \
@@ -58,23 +58,25 @@ H_ENC0(write_indef_text_start)
 H_ENC0(write_indef_array_start)
 H_ENC0(write_indef_map_start)
 H_ENC0(write_break)
-H_ENC1(write_single_float, float)
-H_ENC1(write_float, double)
+/* r_bits: the exact argument for the native replay (the trace prints floating-point values rounded) */
+void h_write_single_float(void) { struct aws_cbor_encoder *encoder; float v; GHOSTS(); r_bits = F32_BITS(v); aws_cbor_encoder_write_single_float(encoder, v); CANARY("returned"); }
+void h_write_float(void) { struct aws_cbor_encoder *encoder; double v; GHOSTS(); r_bits = F64_BITS(v); aws_cbor_encoder_write_float(encoder, v); CANARY("returned"); }
 /* the same contract, input domain split into the four regimes (together: every double) to stay inside the time budget */
-#define H_FLOAT(name, cond) void h_write_float_##name(void) { struct aws_cbor_encoder *encoder; double v; GHOSTS(); __CPROVER_assume(cond); aws_cbor_encoder_write_float(encoder, v); CANARY("returned"); }
+#define H_FLOAT(name, cond) void h_write_float_##name(void) { struct aws_cbor_encoder *encoder; double v; GHOSTS(); __CPROVER_assume(cond); r_bits = F64_BITS(v); aws_cbor_encoder_write_float(encoder, v); CANARY("returned"); }
 H_FLOAT(nonfinite, !__CPROVER_isfinited(v))
 H_FLOAT(int, FL_INT(v))
 H_FLOAT(single, __CPROVER_isfinited(v) && FL_SINGLE(v))
 H_FLOAT(double, FL_DOUBLE(v))
 /* DESIGN section 6, F5: every double -> int64_t conversion in write_float must be defined C (checked with --conversion-check;
  * ghost content clauses off, so only the library's own conversions are examined) */
-void h_write_float_conversion(void) { struct aws_cbor_encoder *encoder; double v; C10_RESET();
+void h_write_float_conversion(void) { struct aws_cbor_encoder *encoder; double v; C10_RESET(); R_ENC_ON(); r_bits = F64_BITS(v);
     /* CBMC's check compares against the lower bound -2^63 - 1 rounded to double (= -2^63) and so flags -2^63 itself,
      * which IS representable; that one value is left to the functional units */
     __CPROVER_assume(v != -TWO63);
     aws_cbor_encoder_write_float(encoder, v); CANARY("returned"); }
-H_ENC1(write_bytes, struct aws_byte_cursor)
-H_ENC1(write_text, struct aws_byte_cursor)
+#define H_ENC_STR(name) void h_##name(void) { struct aws_cbor_encoder *encoder; struct aws_byte_cursor v; GHOSTS(); r_from_len = v.len; aws_cbor_encoder_##name(encoder, v); CANARY("returned"); }
+H_ENC_STR(write_bytes)
+H_ENC_STR(write_text)
 
 /* ------------------------------------------------------------------ decoder */
 /* DFCC starts every mutable static as NONDET, and the callback table of cbor.c is a non-const static: the DFCC
@@ -104,12 +106,12 @@ void h_callbacks_table(void) {
 }
 void h_decode_next_element(void) {
     struct aws_cbor_decoder *decoder;
-    C10_RESET(); c10_callbacks_init();
+    C10_RESET(); R_DEC_ON(); c10_callbacks_init();
     int r = s_cbor_decode_next_element(decoder);
     if (r == 0) CANARY("decoded"); else CANARY("rejected");
 }
 
-#define H_POP(name, T) void h_pop_##name(void) { struct aws_cbor_decoder *decoder; T *out; C10_RESET(); \
+#define H_POP(name, T) void h_pop_##name(void) { struct aws_cbor_decoder *decoder; T *out; C10_RESET(); R_DEC_ON(); \
     int r = aws_cbor_decoder_pop_next_##name(decoder, out); if (r == 0) CANARY("popped"); else CANARY("refused"); }
 H_POP(unsigned_int_val, uint64_t)
 H_POP(negative_int_val, uint64_t)
@@ -120,11 +122,11 @@ H_POP(boolean_val, bool)
 H_POP(float_val, double)
 H_POP(bytes_val, struct aws_byte_cursor)
 H_POP(text_val, struct aws_byte_cursor)
-void h_peek_type(void) { struct aws_cbor_decoder *decoder; enum aws_cbor_type *t; C10_RESET();
+void h_peek_type(void) { struct aws_cbor_decoder *decoder; enum aws_cbor_type *t; C10_RESET(); R_DEC_ON();
     int r = aws_cbor_decoder_peek_type(decoder, t); if (r == 0) CANARY("peeked"); else CANARY("refused"); }
-void h_consume_single(void) { struct aws_cbor_decoder *decoder; C10_RESET();
+void h_consume_single(void) { struct aws_cbor_decoder *decoder; C10_RESET(); R_DEC_ON();
     int r = aws_cbor_decoder_consume_next_single_element(decoder); if (r == 0) CANARY("skipped"); else CANARY("refused"); }
-void h_remaining(void) { struct aws_cbor_decoder *decoder; C10_RESET();
+void h_remaining(void) { struct aws_cbor_decoder *decoder; C10_RESET(); R_DEC_ON();
     size_t r = aws_cbor_decoder_get_remaining_length(decoder); if (r) CANARY("some left"); else CANARY("nothing left"); }
 
 /* ------------------------------------------------------------------ lemma units: writer-side spec o reader-side spec = id
@@ -220,7 +222,7 @@ static size_t c10_rt_decode(struct c10_rt *rt) {
 #define RT_DONE(rt) __CPROVER_assert(aws_cbor_decoder_get_remaining_length(&(rt)->dec) == 0 && (rt)->dec.error_code == 0 && \
                                      (rt)->dec.cached_context.type == AWS_CBOR_TYPE_UNKNOWN, "consumed exactly the encoded bytes")
 
-#define H_RT_U64(name, wr, pop) void h_rt_##name(void) { struct c10_rt rt; c10_rt_begin(&rt, 16); uint64_t v = nondet_u64(), out = 0; \
+#define H_RT_U64(name, wr, pop) void h_rt_##name(void) { struct c10_rt rt; c10_rt_begin(&rt, 16); uint64_t v = nondet_u64(), out = 0; r_v = v; \
     aws_cbor_encoder_write_##wr(&rt.enc, v); size_t n = c10_rt_decode(&rt); \
     __CPROVER_assert(n == (v < 24 ? 1 : v <= 0xFF ? 2 : v <= 0xFFFF ? 3 : v <= 0xFFFFFFFFull ? 5 : 9), "shortest head"); \
     __CPROVER_assert(aws_cbor_decoder_pop_next_##pop(&rt.dec, &out) == AWS_OP_SUCCESS && out == v, "same item type and value"); RT_DONE(&rt); \
@@ -233,6 +235,7 @@ H_RT_U64(map_start, map_start, map_start)
 
 void h_rt_simple(void) {
     struct c10_rt rt; c10_rt_begin(&rt, 16); uint8_t which = nondet_u8(); bool bv = (nondet_int() != 0), bout = !bv; enum aws_cbor_type expect, got = AWS_CBOR_TYPE_UNKNOWN;
+    r_v = which < 7 ? which : 7; r_v2 = bv; /* replay variables */
     switch (which) {
         case 0: aws_cbor_encoder_write_bool(&rt.enc, bv); expect = AWS_CBOR_TYPE_BOOL; break;
         case 1: aws_cbor_encoder_write_null(&rt.enc); expect = AWS_CBOR_TYPE_NULL; break;
@@ -253,7 +256,7 @@ void h_rt_simple(void) {
 }
 /* two items in a row: the second starts where the first ended, on both sides */
 void h_rt_sequence(void) {
-    struct c10_rt rt; c10_rt_begin(&rt, 24); uint64_t v1 = nondet_u64(), v2 = nondet_u64(), o1 = 0, o2 = 0;
+    struct c10_rt rt; c10_rt_begin(&rt, 24); uint64_t v1 = nondet_u64(), v2 = nondet_u64(), o1 = 0, o2 = 0; r_v = v1; r_v2 = v2;
     aws_cbor_encoder_write_negint(&rt.enc, v1); aws_cbor_encoder_write_uint(&rt.enc, v2);
     c10_rt_decode(&rt);
     __CPROVER_assert(aws_cbor_decoder_pop_next_negative_int_val(&rt.dec, &o1) == AWS_OP_SUCCESS && o1 == v1, "first item");
@@ -263,7 +266,7 @@ void h_rt_sequence(void) {
 /* strings: payload of up to RT_STR_MAX bytes (both the embedded and the one-byte length head); content by witness */
 #define RT_STR_MAX 40
 #define H_RT_STR(name) void h_rt_##name(void) { struct c10_rt rt; uint8_t payload[RT_STR_MAX]; struct aws_byte_cursor from, out; \
-    size_t len = nondet_size_t(); __CPROVER_assume(len <= RT_STR_MAX); c10_rt_begin(&rt, RT_CAP); \
+    size_t len = nondet_size_t(); __CPROVER_assume(len <= RT_STR_MAX); r_from_len = len; c10_rt_begin(&rt, RT_CAP); \
     from = aws_byte_cursor_from_array(payload, len); \
     aws_cbor_encoder_write_##name(&rt.enc, from); size_t n = c10_rt_decode(&rt); \
     __CPROVER_assert(n == (len < 24 ? 1 : 2) + len, "shortest head + payload"); \
@@ -278,25 +281,25 @@ H_RT_STR(text)
 #define RT_POP_FLOAT(rt, v, n, expect_n) do { double d_ = 0; \
     __CPROVER_assert(aws_cbor_decoder_pop_next_float_val(&(rt)->dec, &d_) == AWS_OP_SUCCESS && (__CPROVER_isnand(v) ? __CPROVER_isnand(d_) : d_ == (v)), "float item, same numeric value"); \
     __CPROVER_assert((n) == (expect_n), "smallest form that loses nothing (5 = single, 9 = double; never a half)"); } while (0)
-void h_rt_float_nonfinite(void) { struct c10_rt rt; c10_rt_begin(&rt, 16); double v = nondet_double(); __CPROVER_assume(!__CPROVER_isfinited(v));
+void h_rt_float_nonfinite(void) { struct c10_rt rt; c10_rt_begin(&rt, 16); double v = nondet_double(); __CPROVER_assume(!__CPROVER_isfinited(v)); r_bits = F64_BITS(v);
     aws_cbor_encoder_write_float(&rt.enc, v); size_t n = c10_rt_decode(&rt); RT_POP_FLOAT(&rt, v, n, 5); RT_DONE(&rt);
     if (__CPROVER_isnand(v)) CANARY("NaN"); else CANARY("infinity"); }
 void h_rt_float_int(void) { struct c10_rt rt; c10_rt_begin(&rt, 16); double v = nondet_double(); uint64_t u = 0;
-    __CPROVER_assume(__CPROVER_isfinited(v) && v >= -TWO63 && v < TWO63 && (double)(int64_t)v == v);
+    __CPROVER_assume(__CPROVER_isfinited(v) && v >= -TWO63 && v < TWO63 && (double)(int64_t)v == v); r_bits = F64_BITS(v);
     aws_cbor_encoder_write_float(&rt.enc, v); size_t n = c10_rt_decode(&rt);
     if (v >= 0) { __CPROVER_assert(aws_cbor_decoder_pop_next_unsigned_int_val(&rt.dec, &u) == AWS_OP_SUCCESS && (double)u == v, "stored as unsigned integer, exact"); CANARY("non-negative"); }
     else { __CPROVER_assert(aws_cbor_decoder_pop_next_negative_int_val(&rt.dec, &u) == AWS_OP_SUCCESS && u <= (uint64_t)INT64_MAX && (double)(-1 - (int64_t)u) == v, "stored as negative integer, exact"); CANARY("negative"); }
     __CPROVER_assert(n == (u < 24 ? 1 : u <= 0xFF ? 2 : u <= 0xFFFF ? 3 : u <= 0xFFFFFFFFull ? 5 : 9), "shortest head");
     RT_DONE(&rt); }
 void h_rt_float_single(void) { struct c10_rt rt; c10_rt_begin(&rt, 16); double v = nondet_double();
-    __CPROVER_assume(__CPROVER_isfinited(v) && !(v >= -TWO63 && v < TWO63 && (double)(int64_t)v == v) && (double)(float)v == v);
+    __CPROVER_assume(__CPROVER_isfinited(v) && !(v >= -TWO63 && v < TWO63 && (double)(int64_t)v == v) && (double)(float)v == v); r_bits = F64_BITS(v);
     aws_cbor_encoder_write_float(&rt.enc, v); size_t n = c10_rt_decode(&rt); RT_POP_FLOAT(&rt, v, n, 5); RT_DONE(&rt);
     if (v == TWO63) CANARY("2^63"); else CANARY("other single"); }
 void h_rt_float_double(void) { struct c10_rt rt; c10_rt_begin(&rt, 16); double v = nondet_double();
-    __CPROVER_assume(__CPROVER_isfinited(v) && !(v >= -TWO63 && v < TWO63 && (double)(int64_t)v == v) && (double)(float)v != v);
+    __CPROVER_assume(__CPROVER_isfinited(v) && !(v >= -TWO63 && v < TWO63 && (double)(int64_t)v == v) && (double)(float)v != v); r_bits = F64_BITS(v);
     aws_cbor_encoder_write_float(&rt.enc, v); size_t n = c10_rt_decode(&rt); RT_POP_FLOAT(&rt, v, n, 9); RT_DONE(&rt);
     CANARY("reached"); }
-void h_rt_single_float(void) { struct c10_rt rt; c10_rt_begin(&rt, 16); float f = nondet_float(); double d = 0;
+void h_rt_single_float(void) { struct c10_rt rt; c10_rt_begin(&rt, 16); float f = nondet_float(); double d = 0; r_bits = F32_BITS(f);
     aws_cbor_encoder_write_single_float(&rt.enc, f); size_t n = c10_rt_decode(&rt);
     __CPROVER_assert(n == 5, "five bytes");
     __CPROVER_assert(aws_cbor_decoder_pop_next_float_val(&rt.dec, &d) == 0 && (__CPROVER_isnanf(f) ? __CPROVER_isnand(d) : d == (double)f), "float item, same value");
